@@ -3,7 +3,7 @@ CONSTANTS
   Mode = "wf"
   Gen = "slice"
   Dev = {}
-  LastBy = "index"
+  LastBy = "identity"
   MaxLines = 6
   MaxDepth = 5
   MaxBlank = 0
